@@ -38,7 +38,32 @@ func g01Obs(v rtp.HeaderExtension) Ev {
 		mb = cloneBytes(mb)
 		size = v.MarshalSize()
 	})
-	return Ev{"res": r, "ids": ids, "vals": vals, "probes": probes, "marshal": ints(mb), "size": size}
+	// MarshalTo into destinations of every interesting length: too short -> refused (no panic, no write behind the
+	// destination); long enough -> the bytes of Marshal and their count
+	mtShort, mtLong := true, true
+	if r == "ok" && size >= 0 {
+		for _, n := range []int{0, 1, size - 1, size, size + 3} {
+			if n < 0 {
+				continue
+			}
+			back := make([]byte, n+4)
+			for i := range back {
+				back[i] = 0xA5
+			}
+			var k int
+			var err error
+			rr, _ := guard(func() { k, err = v.MarshalTo(back[:n:n]) })
+			guardOK := back[n] == 0xA5 && back[n+1] == 0xA5 && back[n+2] == 0xA5 && back[n+3] == 0xA5
+			if n < size {
+				if rr != "ok" || err == nil || !guardOK {
+					mtShort = false
+				}
+			} else if rr != "ok" || err != nil || k != size || string(back[:size]) != string(mb) || !guardOK {
+				mtLong = false
+			}
+		}
+	}
+	return Ev{"res": r, "ids": ids, "vals": vals, "probes": probes, "marshal": ints(mb), "size": size, "mt_short": mtShort, "mt_long": mtLong}
 }
 
 func runG01(raw json.RawMessage, w *Writer) {
